@@ -23,8 +23,8 @@ Print Assumptions C01_code_yields_tokens_at_most_once.
 (* (c) a replay by an authenticated client answers invalid_grant, and from that moment on — after any
    further history — every credential that was minted for the code's grant (the tokens of the
    redemption and of every later refresh: they all carry the grant's request id) is reported
-   inactive, under every hint, scope list and presentation.  [i_kind e <> KImplicit] excludes the access token that
-   a hybrid authorization hands out at the authorization endpoint: it is not "obtained by redeeming the code" *)
+   inactive, under every hint, scope list and presentation - the access token a hybrid authorization handed out at the
+   authorization endpoint included (true since the repair of RevokeAccessToken, finding A10) *)
 Theorem C01_replay_revokes_the_family :
   forall cfg cls h1 c cl code redirect v vh k r h2 i e tampered hint scopes,
   let s1 := run cfg (state0 cls) h1 in
@@ -33,7 +33,7 @@ Theorem C01_replay_revokes_the_family :
   let res := redeem cfg s1 (Some c) code redirect v vh in
   o_err (snd res) = "invalid_grant" /\ o_minted (snd res) = [] /\
   (let s2 := run cfg (fst res) h2 in
-   nth_error (log s2) i = Some e -> i_rid e = r_id r -> i_kind e <> KImplicit ->
+   nth_error (log s2) i = Some e -> i_rid e = r_id r ->
    introspect cfg s2 {| p_ref := CRef i; p_tampered := tampered |} hint scopes = None).
 Proof. exact replay_kills_family. Qed.
 Print Assumptions C01_replay_revokes_the_family.
